@@ -51,19 +51,41 @@ func (ex *Exec) newTimer(st *State, typ types.Type, d *Term, fn *FuncV) *Ptr {
 	}
 	o := ex.newObj(OCell, typ, "timer")
 	o.Val = ex.zero(typ)
-	tm := &timerRec{id: len(ex.sched.timers), obj: o, due: ex.tb.Add(ex.clock, ex.durToInt(d)), active: st.G, fn: fn, exists: st.G}
+	var ch *Object
+	sv := o.Val.(*StructV)
 	if fn == nil {
-		// store the channel in field C
-		sv := o.Val.(*StructV)
 		for i := 0; i < sv.Typ.NumFields(); i++ {
 			if sv.Typ.Field(i).Name() == "C" {
-				tm.ch = ex.newChan(sv.Typ.Field(i).Type().Underlying().(*types.Chan).Elem(), 1, "timer.C")
-				sv.Fields[i] = ex.ptrTo(tm.ch)
+				ch = ex.newChan(sv.Typ.Field(i).Type().Underlying().(*types.Chan).Elem(), 1, "timer.C")
+				ch = ex.adopt(st, ch)
+				sv.Fields[i] = ex.ptrTo(ch)
 			}
 		}
 	}
+	o = ex.adopt(st, o)
+	due := ex.tb.Add(ex.clock, ex.durToInt(d))
+	if tm, ok := ex.timerOf[o]; ok {
+		// the same program point executed at another scheduler step (mutually exclusive)
+		tm.due = ex.tb.Ite(st.G, due, tm.due)
+		tm.active = ex.tb.Or(tm.active, st.G)
+		tm.exists = ex.tb.Or(tm.exists, st.G)
+		if fn != nil {
+			tm.fn = ex.merge(st.G, fn, tm.fn).(*FuncV)
+		}
+		ex.armTimer(st, tm, st.G)
+		return ex.ptrTo(o)
+	}
+	tm := &timerRec{id: len(ex.sched.timers), obj: o, due: due, active: st.G, fn: fn, exists: st.G, ch: ch}
+	if st.thread != nil {
+		ex.position(st)
+		tm.key = st.key
+	} else {
+		ex.nArm++
+		tm.key = fmt.Sprintf("main-timer#%d", ex.nArm)
+	}
 	ex.sched.timers = append(ex.sched.timers, tm)
 	ex.timerOf[o] = tm
+	ex.armTimer(st, tm, st.G)
 	return ex.ptrTo(o)
 }
 
@@ -171,6 +193,7 @@ func init() {
 			g := tb.And(c.st.G, x.g)
 			x.tm.active = tb.Or(x.tm.active, g)
 			x.tm.due = tb.Ite(g, tb.Add(ex.clock, d), x.tm.due)
+			ex.armTimer(c.st, x.tm, g)
 		}
 		return tb.Restrict(was, c.st.ctx), true
 	}
